@@ -377,7 +377,7 @@ func genCase(t *rapid.T) Case {
 }
 
 func TestC19(t *testing.T) {
-	ev.Rapid(t, rec, "streams", rec.Scale(4000, 250000), genCase, func(c Case) *ev.Failure {
+	ev.Rapid(t, rec, "streams", rec.Scale(4000, 2000000), genCase, func(c Case) *ev.Failure {
 		recs, rich, tpl, empty := 0, false, false, false
 		for _, m := range c.Msgs {
 			if m.Tpl {
